@@ -12,6 +12,7 @@ From SudachiVerif Require Import Model.LexSet Proofs.LexSetProofs Model.DictCand
 From SudachiVerif Require Proofs.PipelineProofs Proofs.PipelineFull Proofs.NormalizeBuffer Proofs.TrieProofs Proofs.LookupLattice Model.Trie.
 From SudachiVerif Require Model.Oov Proofs.OovFallback Proofs.OovWf Proofs.OovLattice Proofs.TotalitySimple.
 From SudachiVerif Require Model.Rewrite Proofs.RewriteProofs Model.Split Proofs.SplitProofs.
+From SudachiVerif Require Model.LatticeM Model.LatticeP Proofs.LatticeMProofs Proofs.LatticePProofs.
 From SudachiVerif Require Model.SplitSource Proofs.SplitDict Model.CodecResolve Model.CodecCheck Model.Codec Proofs.CodecProofs.
 Import ListNotations.
 Local Open Scope nat_scope.
@@ -131,40 +132,73 @@ Section Pairs.
   Let n := length t.
   Hypothesis Hwf : forall p m, In m (offered_at cfg tk t p) -> node_wf n p m.
 
-  Definition ins_ok (ins : list node) (ws : list N) : Prop :=
-    length ws = length ins /\ (forall m, In m ins -> 0 < nend m <= n) /\ Forall pair_ok (combine ins ws).
+  Definition count_end := SudachiVerif.Model.LatticeP.count_end.
+
+  Lemma count_end_app e a b : count_end e (a ++ b) = count_end e a + count_end e b.
+  Proof. unfold count_end, SudachiVerif.Model.LatticeP.count_end. now rewrite filter_app, app_length. Qed.
+
+  (* what the loop has inserted when it arrives at position p: nodes offered at some position, with their ids; and no more
+     of them end at a boundary than were offered in all *)
+  Definition ins_ok (p : nat) (ins : list node) (ws : list N) : Prop :=
+    length ws = length ins /\ (forall m, In m ins -> exists q, In m (offered_at cfg tk t q)) /\ Forall pair_ok (combine ins ws) /\ (forall e, count_end e ins <= count_end e (flat_map (offered_at cfg tk t) (seq 0 p))).
+
+  Lemma ins_range p ins ws : ins_ok p ins ws -> forall m, In m ins -> nbeg m < nend m <= n.
+  Proof. intros (_ & H & _) m Hm. destruct (H m Hm) as (q & Hq). destruct (Hwf q m Hq) as (-> & H1 & H2). lia. Qed.
 
   Lemma loop_ids_inv L0 : forall todo L ids p L' ids',
     loop_ids cfg tk t L ids p todo = Some (L', ids') ->
-    forall ins ws, L = insert_all conn L0 ins -> ids = combine (map nend ins) ws -> ins_ok ins ws ->
-    exists ins' ws', L' = insert_all conn L0 ins' /\ ids' = combine (map nend ins') ws' /\ ins_ok ins' ws'.
+    forall ins ws, L = insert_all conn L0 ins -> ids = combine (map nend ins) ws -> ins_ok p ins ws ->
+    exists ins' ws', L' = insert_all conn L0 ins' /\ ids' = combine (map nend ins') ws' /\ ins_ok (p + todo) ins' ws'.
   Proof.
     induction todo as [|k IH]; intros L ids p L' ids' H ins ws HL Hids Hok; cbn [loop_ids] in H.
-    - injection H as <- <-. exists ins, ws. auto.
-    - destruct (has_previous_node L p); [|eapply IH; eauto].
-      destruct (offered_at cfg tk t p) as [|x xs] eqn:E; [discriminate|]. rewrite <- E in H.
-      destruct Hok as (Hlen & Hrange & Hpairs).
+    - injection H as <- <-. exists ins, ws. rewrite Nat.add_0_r. auto.
+    - replace (p + S k) with (S p + k) by lia.
+      assert (Hseq : forall e, count_end e (flat_map (offered_at cfg tk t) (seq 0 (S p))) =
+                               count_end e (flat_map (offered_at cfg tk t) (seq 0 p)) + count_end e (offered_at cfg tk t p)).
+      { intros e. rewrite seq_S, flat_map_app, count_end_app. cbn [flat_map Nat.add]. now rewrite app_nil_r. }
+      destruct Hok as (Hlen & Hoff & Hpairs & Hcnt).
+      destruct (has_previous_node L p).
+      2:{ apply (IH _ _ _ _ _ H ins ws HL Hids). split; [exact Hlen|]. split; [exact Hoff|]. split; [exact Hpairs|].
+          intros e. rewrite Hseq. specialize (Hcnt e). lia. }
+      destruct (offered_at cfg tk t p) as [|x xs] eqn:E; [discriminate|]. rewrite <- E in *.
       apply (IH _ _ _ _ _ H (ins ++ offered_at cfg tk t p) (ws ++ offered_ids cfg tk t p)).
       + rewrite HL. unfold insert_all. now rewrite fold_left_app.
       + rewrite Hids, map_app. symmetry. apply combine_app. now rewrite map_length.
-      + split; [rewrite !app_length, offered_ids_length; lia|]. split.
-        * intros m Hm. apply in_app_or in Hm. destruct Hm as [Hm|Hm]; [now apply Hrange|].
-          destruct (Hwf p m Hm) as (_ & H1 & H2). lia.
+      + split; [rewrite !app_length, offered_ids_length; lia|]. split; [|split].
+        * intros m Hm. apply in_app_or in Hm. destruct Hm as [Hm|Hm]; [now apply Hoff | exists p; exact Hm].
         * rewrite combine_app by lia. apply Forall_app. split; [exact Hpairs|].
           apply Forall_forall. intros y Hy. exact (offered_pairs p y Hy).
+        * intros e. rewrite Hseq, count_end_app. specialize (Hcnt e). lia.
+  Qed.
+
+  (* what pre_split computes, stage by stage *)
+  Lemma pre_split_inv a : pre_split cfg tk t = Ok a ->
+    exists ins ws rps,
+      pr_lattice a = insert_all conn (reset n) ins /\ ins_ok n ins ws /\
+      connect_eos conn (pr_lattice a) = Some (pr_eos a) /\
+      pr_path a = flat_map (fun p => match get (pr_lattice a) p with
+                                     | Some e => match enode e with Some nd => [(nd, wid_at (combine (map nend ins) ws) p)] | None => [] end
+                                     | None => [] end) rps /\
+      pr_result a = map (fun x => result_node tk t (fst x) (snd x)) (pr_path a) /\
+      pr_split_in a = map (split_node_of (combine (pr_result a) (map snd (pr_path a)))) (pr_rewritten a).
+  Proof.
+    unfold pre_split. fold n. fold conn.
+    destruct (loop_ids cfg tk t (reset n) [] 0 n) as [[L ids]|] eqn:El; [|discriminate].
+    destruct (connect_eos conn L) as [[[r i] c]|] eqn:Ee; [|discriminate].
+    destruct (walk_pos L (length L) (r, i)) as [rps|]; [|discriminate].
+    match goal with |- match ?X with _ => _ end = _ -> _ => destruct X as [[q| |]|]; try discriminate end.
+    intros H. injection H as <-. cbn [pr_path pr_lattice pr_eos pr_result pr_split_in pr_rewritten].
+    destruct (loop_ids_inv (reset n) n (reset n) [] 0 L ids El [] []) as (ins & ws & HL & Hids & Hok);
+      [reflexivity | reflexivity | split; [reflexivity | split; [intros m [] | split; [constructor | intros e; cbn; lia]]] |].
+    exists ins, ws, (rev rps). subst ids. split; [exact HL|]. split; [exact Hok|]. split; [exact Ee|]. repeat split; reflexivity.
   Qed.
 
   (* the pairs of the path read back from the lattice *)
   Lemma path_pairs a : pre_split cfg tk t = Ok a -> Forall pair_ok (pr_path a).
   Proof.
-    unfold pre_split. fold n.
-    destruct (loop_ids cfg tk t (reset n) [] 0 n) as [[L ids]|] eqn:El; [|discriminate].
-    destruct (connect_eos (tk_conn tk) L) as [[[r i] c]|]; [|discriminate].
-    destruct (walk_pos L (length L) (r, i)) as [rps|]; [|discriminate].
-    match goal with |- match ?X with _ => _ end = _ -> _ => destruct X as [[q| |]|]; try discriminate end.
-    intros H. injection H as <-. cbn [pr_path].
-    destruct (loop_ids_inv (reset n) n (reset n) [] 0 L ids El [] []) as (ins & ws & HL & Hids & Hlen & Hrange & Hpairs);
-      [reflexivity | reflexivity | split; [reflexivity | split; [intros m [] | constructor]] |].
+    intros Ha. destruct (pre_split_inv a Ha) as (ins & ws & rps & HL & Hok & _ & Hpath & _).
+    pose proof (ins_range _ _ _ Hok) as Hrange. destruct Hok as (Hlen & _ & Hpairs & _).
+    rewrite Hpath. set (L := pr_lattice a) in *.
     apply Forall_forall. intros [nd w] Hin. apply in_flat_map in Hin. destruct Hin as ([r' i'] & _ & Hin).
     destruct (get L (r', i')) as [e|] eqn:Eg; [|contradiction]. destruct (enode e) as [nd'|] eqn:Ee; [|contradiction].
     destruct Hin as [Hin|[]]. injection Hin as <- <-.
@@ -184,8 +218,223 @@ Section Pairs.
     - cbn [map app] in Hnth. rewrite nth_error_map in Hnth.
       destruct (nth_error (filter (fun m => Nat.eqb (nend m) r') ins) i') as [m|] eqn:En; [|discriminate]. cbn in Hnth. injection Hnth as ->.
       rewrite (filter_combine_fst (fun m => Nat.eqb (nend m) r') ins ws (eq_sym Hlen)) in En.
-      unfold wid_at. cbn [fst snd]. rewrite Hids.
+      unfold wid_at. cbn [fst snd].
       rewrite (filter_combine_map nend (fun e => Nat.eqb e r') ins ws).
       pose proof (nth_error_map_fst_snd _ _ _ WID_INVALID En) as Hin. apply filter_In in Hin. exact (proj1 Hin).
   Qed.
 End Pairs.
+
+(* ------------------------------------------------------------------ word ids: WordId::new(dic, word) read back as the
+   source model does (dic_part = / 2^28, word_part = mod 2^28) *)
+Section Stamp.
+  Hypothesis HL : layout_ok = true.
+
+  Lemma stamp_parts d raw : SS.dic_part (stamp d raw) = (d mod 16)%N /\ SS.word_part (stamp d raw) = (raw mod 2 ^ 28)%N.
+  Proof.
+    destruct (layout_facts HL) as (E1 & _ & E3 & E4 & _). unfold stamp. rewrite E1, E3, E4.
+    change 15%N with (N.ones 4). rewrite !N.land_ones. change (2 ^ 4)%N with 16%N.
+    assert (Hr : (raw mod 2 ^ 28 < 2 ^ 28)%N) by (apply N.mod_upper_bound; discriminate).
+    unfold SS.dic_part, SS.word_part. change CR.DIC with (2 ^ 28)%N. split.
+    - rewrite <- N.shiftr_div_pow2, N.shiftr_lor, N.shiftr_shiftl_l by lia. rewrite N.sub_diag, N.shiftl_0_r.
+      rewrite (N.shiftr_div_pow2 (raw mod 2 ^ 28)), N.div_small by exact Hr. apply N.lor_0_r.
+    - rewrite <- N.land_ones, N.land_lor_distr_l, !N.land_ones, N.shiftl_mul_pow2.
+      rewrite N.mod_mul by discriminate. rewrite N.lor_0_l. apply N.mod_small. exact Hr.
+  Qed.
+
+  Lemma oov_id_dic q : SS.dic_part (oov_id q) = 15%N.
+  Proof. unfold oov_id. destruct (layout_facts HL) as (_ & _ & _ & _ & ->). exact (proj1 (stamp_parts 15 q)). Qed.
+End Stamp.
+
+Lemma invalid_dic : SS.dic_part WID_INVALID = 15%N.
+Proof. reflexivity. Qed.
+
+(* ------------------------------------------------------------------ a key whose bytes are a prefix of an encoded text is
+   a prefix of the text (UTF-8 is prefix free) *)
+Lemma enc_prefix_inv : forall k r x, enc r = enc k ++ x -> exists post, r = k ++ post.
+Proof.
+  induction k as [|c k IH]; intros r x H; [exists r; reflexivity|].
+  cbn [PF.enc flat_map] in H. fold (enc k) in H. rewrite <- app_assoc in H.
+  destruct r as [|d r].
+  - exfalso. destruct (PF.utf8_shape c) as (b & rr & E & _). rewrite E in H. discriminate.
+  - cbn [PF.enc flat_map] in H. fold (enc r) in H. apply NB.utf8_inj_app in H. destruct H as [-> H].
+    destruct (IH r x H) as (post & ->). exists post. reflexivity.
+Qed.
+
+Lemma utf8_bytes_enc k : SudachiVerif.Model.Codec.utf8_bytes k = enc k.
+Proof. reflexivity. Qed.
+
+(* ------------------------------------------------------------------ a dictionary candidate covers the key of its word *)
+Section Cover.
+  Variable cfg : bcfg.
+  Hypothesis Hcfg : cfg_ok cfg = true.
+  Hypothesis HL : layout_ok = true.
+  Variable tk : tokenizer.
+  Variable t : list N.
+  Hypothesis Hsc : Forall scalar t.
+  Variable ds : SS.srcs.
+  (* every lexicon of the stack carries the C04 certificate against the index rows of ITS source rows (C05: index_rows_of) *)
+  Hypothesis Hcert : Forall2 (fun L rows => exists fuel, cert_lex L (CC.index_rows_of rows) fuel = true) (tk_lexs tk) ds.
+  Hypothesis Hnd : length ds <= 15.
+  Hypothesis Hsrc : SD.srcs_ok ds.
+
+  Lemma forall2_nth {A B} (R : A -> B -> Prop) : forall l l', Forall2 R l l' ->
+    forall d x, nth_error l d = Some x -> exists y, nth_error l' d = Some y /\ R x y.
+  Proof.
+    induction 1 as [|a b l l' Hab _ IH]; intros [|d] x Hx; cbn in *; try discriminate.
+    - injection Hx as <-. exists b. auto.
+    - exact (IH d x Hx).
+  Qed.
+
+  (* the byte offset of character p, and the character index of a byte offset on a boundary *)
+  Lemma c2b_at pre post : pre ++ post <> [] -> nth (length pre) (mod_c2b (enc (pre ++ post))) 0 = length (enc pre).
+  Proof.
+    intros Hne. pose proof (c2b_enc_prefix cfg Hcfg pre post Hne) as H. unfold to_curr_byte_idx in H.
+    now apply nth_error_nth.
+  Qed.
+
+  Lemma b2c_at pre post : pre ++ post <> [] -> nth (length (enc pre)) (mod_b2c cfg (enc (pre ++ post))) 0 = length pre.
+  Proof.
+    intros Hne.
+    assert (Hb : is_boundary (enc (pre ++ post)) (length (enc pre)) = true) by (rewrite PF.enc_length; apply PF.enc_boundary).
+    assert (Hn : enc (pre ++ post) <> []) by (apply NB.enc_nonempty; exact Hne).
+    pose proof (ch_idx_boundary cfg Hcfg _ _ (PF.enc_wf _) Hn Hb) as H. unfold ch_idx in H.
+    apply nth_error_nth with (d := 0) in H. rewrite H.
+    rewrite PF.enc_app, firstn_app, Nat.sub_diag, firstn_all. cbn [firstn]. rewrite app_nil_r. apply count_leads_enc.
+  Qed.
+
+  Theorem dict_id_covers p w ec : In (w, ec) (dict_ids cfg tk t p) ->
+    exists pre post, t = pre ++ SS.src_key ds w ++ post /\ length pre = p /\ ec = length (pre ++ SS.src_key ds w).
+  Proof.
+    unfold dict_ids. destruct (Nat.ltb_spec p (length t)) as [Hp|Hp]; [|intros []].
+    unfold dict_entries. fold (tb t).
+    destruct (lookup_set (tk_lexs tk) (tb t) (nth p (mod_c2b (tb t)) 0)) as [l|] eqn:El; [|intros []].
+    intros H. apply in_map_iff in H. destruct H as ([w' eb] & Heq & Hin). cbn [fst snd] in Heq. injection Heq as -> <-.
+    apply filter_In in Hin. destruct Hin as [Hin _].
+    apply (lookup_set_in _ _ _ _ El) in Hin. destruct Hin as (d & L & ld & HdL & Hld & Hin).
+    destruct (forall2_nth _ _ _ Hcert d L HdL) as (rows & Hrows & fuel & Hc).
+    assert (Hd15 : d < 15) by (assert (d < length ds) by (apply nth_error_Some; congruence); lia).
+    destruct (layout_facts HL) as (_ & _ & E3 & E4 & _).
+    assert (Hmask : N.land (N.of_nat d) LF.DIC_MASK = N.of_nat d).
+    { rewrite E3. change 15%N with (N.ones 4). rewrite N.land_ones. apply N.mod_small. change (2 ^ 4)%N with 16%N. lia. }
+    destruct (enc_chars_ok t Hsc) as [_ Hby].
+    destruct (lex_lookup_exact_of_cert L _ fuel Hc (N.of_nat d) (tb t) (nth p (mod_c2b (tb t)) 0) Hmask Hby) as (l' & Hl' & Hiff).
+    rewrite Hld in Hl'. injection Hl' as <-.
+    apply Hiff in Hin. apply naive_lex_in in Hin. destruct Hin as (i & r & Hr & _ & Hpre & -> & ->).
+    unfold CC.index_rows_of in Hr. rewrite nth_error_map in Hr.
+    destruct (nth_error rows (N.to_nat i)) as [rr|] eqn:Err; [|discriminate]. cbn in Hr. injection Hr as <-. cbn [fst] in *.
+    rewrite utf8_bytes_enc in *.
+    (* the source key of the stamped id *)
+    assert (Hi : N.to_nat i < length rows) by (apply nth_error_Some; congruence).
+    assert (Hrows_small : (N.of_nat (length rows) <= CR.DIC)%N).
+    { unfold SD.srcs_ok in Hsrc. rewrite Forall_forall in Hsrc. exact (proj2 (Hsrc rows (nth_error_In _ _ Hrows))). }
+    assert (Hkey : SS.src_key ds (stamp (N.of_nat d) i) = CR.r_surface rr).
+    { unfold SS.src_key, SS.src_row. destruct (stamp_parts HL (N.of_nat d) i) as [-> ->].
+      rewrite (N.mod_small (N.of_nat d)) by lia.
+      rewrite (N.mod_small i) by (change (2 ^ 28)%N with CR.DIC; lia).
+      unfold SS.rows_of. rewrite Nat2N.id. rewrite (nth_error_nth _ _ [] Hrows).
+      replace (i <? N.of_nat (length rows))%N with true by (symmetry; apply N.ltb_lt; lia).
+      now rewrite Err. }
+    rewrite Hkey. set (k := CR.r_surface rr) in *.
+    (* the text splits at p; the key is a prefix of the rest *)
+    set (pre := firstn p t). set (rest := skipn p t).
+    assert (Ht : t = pre ++ rest) by (symmetry; apply firstn_skipn).
+    assert (Hlp : length pre = p) by (unfold pre; rewrite firstn_length; lia).
+    assert (Hne : pre ++ rest <> []) by (rewrite <- Ht; destruct t; [cbn in Hp; lia | discriminate]).
+    assert (Hoff : nth p (mod_c2b (tb t)) 0 = length (enc pre)).
+    { unfold tb. rewrite Ht at 1. rewrite <- Hlp at 1. exact (c2b_at pre rest Hne). }
+    rewrite Hoff in *. unfold tb in Hpre. rewrite Ht, PF.enc_app, skipn_length_app in Hpre.
+    destruct Hpre as (suffix & Hsuf). destruct (enc_prefix_inv k rest suffix Hsuf) as (post & Hrest).
+    exists pre, post. split; [rewrite Ht, Hrest; reflexivity|]. split; [exact Hlp|].
+    rewrite Nat2N.id. unfold tb in *. change (SudachiVerif.Model.Codec.utf8_bytes k) with (enc k). rewrite Hoff.
+    assert (Ht2 : t = (pre ++ k) ++ post) by (rewrite <- app_assoc, <- Hrest; exact Ht).
+    rewrite Ht2 at 1. rewrite <- app_length, <- PF.enc_app. apply b2c_at. rewrite <- Ht2, Ht. exact Hne.
+  Qed.
+End Cover.
+
+(* ------------------------------------------------------------------ H8: the nodes handed to split_path *)
+Module LM := SudachiVerif.Model.LatticeM.
+Module LP := SudachiVerif.Model.LatticeP.
+Module LPP := SudachiVerif.Proofs.LatticePProofs.
+
+Section SplitInput.
+  Variable cfg : bcfg.
+  Hypothesis Hcfg : cfg_ok cfg = true.
+  Hypothesis HL : layout_ok = true.
+  Variable tk : tokenizer.
+  Variable t : list N.
+  Hypothesis Hsc : Forall scalar t.
+  Variable ds : SS.srcs.
+  Hypothesis Hcert : Forall2 (fun L rows => exists fuel, cert_lex L (CC.index_rows_of rows) fuel = true) (tk_lexs tk) ds.
+  Hypothesis Hnd : length ds <= 15.
+  Hypothesis Hsrc : SD.srcs_ok ds.
+  Hypothesis Hwf : forall p m, In m (offered_at cfg tk t p) -> node_wf (length t) p m.
+
+  Lemma node_eqb_coords a b : Rw.node_eqb a b = true ->
+    Rw.nb a = Rw.nb b /\ Rw.ne a = Rw.ne b /\ Rw.bb a = Rw.bb b /\ Rw.be a = Rw.be b.
+  Proof.
+    unfold Rw.node_eqb. intros H. repeat (apply andb_true_iff in H; destruct H as [H ?]).
+    repeat match goal with X : Nat.eqb _ _ = true |- _ => apply Nat.eqb_eq in X end. auto.
+  Qed.
+
+  (* every node handed to split_path either carries an id outside the dictionaries (OOV, or none: a node rebuilt by a
+     path-rewrite plugin) or is the dictionary candidate its id was looked up for: it covers the key of its word *)
+  Theorem path_nodes_cover_their_keys a : pre_split cfg tk t = Ok a ->
+    forall nd, In nd (pr_split_in a) ->
+      SS.dic_part (Sp.wid nd) = 15%N \/ SD.covers t nd (SS.src_key ds (Sp.wid nd)).
+  Proof.
+    intros Ha nd Hin.
+    pose proof (path_pairs cfg tk t Hwf a Ha) as Hpairs.
+    destruct (pre_split_inv cfg tk t Hwf a Ha) as (_ & _ & _ & _ & _ & _ & _ & Hres & Hsp).
+    rewrite Hsp in Hin. apply in_map_iff in Hin. destruct Hin as (q & <- & _).
+    unfold split_node_of. cbn [Sp.wid]. unfold wid_after.
+    destruct (find (fun x => Rw.node_eqb (fst x) q) (combine (pr_result a) (map snd (pr_path a)))) as [x|] eqn:Ef;
+      [|left; exact invalid_dic].
+    apply find_some in Ef. destruct Ef as [Hx Heq]. rewrite Hres in Hx. apply in_combine_maps in Hx.
+    destruct Hx as ([m w] & Hy & ->). cbn [fst snd] in *.
+    rewrite Forall_forall in Hpairs. destruct (Hpairs _ Hy) as [(ec & Hd & Hec) | (q' & Hq)]; cbn [fst snd] in *.
+    2:{ left. rewrite Hq. apply oov_id_dic. exact HL. }
+    right. destruct (dict_id_covers cfg Hcfg HL tk t Hsc ds Hcert Hnd Hsrc _ _ _ Hd) as (pre & post & Ht & Hp & He).
+    apply node_eqb_coords in Heq. destruct Heq as (E1 & E2 & E3 & E4).
+    unfold result_node in E1, E2, E3, E4. cbn [Rw.nb Rw.ne Rw.bb Rw.be] in E1, E2, E3, E4.
+    set (k := SS.src_key ds w) in *.
+    assert (Hne : pre ++ k ++ post <> []).
+    { rewrite <- Ht. intros ->. unfold dict_ids in Hd. cbn in Hd. destruct (nbeg m); exact Hd. }
+    exists pre, post. split; [exact Ht|]. cbn [Sp.nb Sp.ne Sp.bb Sp.be]. rewrite <- E1, <- E2, <- E3, <- E4.
+    unfold Sp.clen. rewrite <- Hp, Hec, He. split; [reflexivity|]. split; [|split; [reflexivity|]].
+    - unfold tb. rewrite Ht at 1. rewrite (c2b_at cfg Hcfg pre (k ++ post) Hne), PF.enc_length. apply N2Nat.id.
+    - unfold tb. rewrite Ht at 1. rewrite app_assoc. rewrite (c2b_at cfg Hcfg (pre ++ k) post) by (rewrite <- app_assoc; exact Hne).
+      rewrite PF.enc_length. apply N2Nat.id.
+  Qed.
+
+  (* ... hence C09's condition on the rows is all that the split stage needs *)
+  Variable cs : list SS.compiled.
+  Hypothesis Hcomp : SD.stack_compiled ds cs.
+  Variables (nsp : N) (po : N -> N).
+
+  Lemma compiled_length : length cs = length ds.
+  Proof.
+    destruct Hcomp as (rows0 & uds & c0 & ucs & es0 & -> & -> & _ & H). cbn [length]. f_equal. clear - H. induction H; cbn; congruence.
+  Qed.
+
+  Lemma no_units_outside a' w : SS.dic_part w = 15%N -> SS.ld_units cs nsp po a' w = [].
+  Proof.
+    intros H. unfold SS.ld_units, SS.ld_info. rewrite H.
+    replace (nth_error cs (N.to_nat 15)) with (@None SS.compiled); [reflexivity|].
+    symmetry. apply nth_error_None. rewrite compiled_length. change (N.to_nat 15) with 15. lia.
+  Qed.
+
+  Definition units_declared_ok (m : Sp.mode) : Prop :=
+    match m with
+    | Sp.ModeA => forall w, 2 <= length (SS.ld_units cs nsp po true w) -> SS.rows_units_ok ds true w = true
+    | Sp.ModeB => forall w, 2 <= length (SS.ld_units cs nsp po false w) -> SS.rows_units_ok ds false w = true
+    | Sp.ModeC => True
+    end.
+
+  Theorem rows_mode_wf_of_lookup a m : pre_split cfg tk t = Ok a -> units_declared_ok m ->
+    rows_mode_wf ds cs nsp po t m (pr_split_in a).
+  Proof.
+    intros Ha Hu. destruct m; cbn [rows_mode_wf units_declared_ok] in *; [| |exact I]; intros nd Hin Hl; (split; [exact (Hu _ Hl)|]);
+      (destruct (path_nodes_cover_their_keys a Ha nd Hin) as [H15|Hc]; [|exact Hc]);
+      rewrite (no_units_outside _ _ H15) in Hl; cbn in Hl; lia.
+  Qed.
+End SplitInput.
